@@ -75,15 +75,48 @@ Proof.
   split_eq; ring.
 Qed.
 
+(** matrix algebra over C needed for the structural proofs *)
+Ltac m3_destruct m :=
+  let a := fresh "a" in let b := fresh "b" in let c := fresh "c" in let d := fresh "d" in
+  let e := fresh "e" in let f := fresh "f" in let g := fresh "g" in let h := fresh "h" in let k := fresh "k" in
+  destruct m as [[[[[[[[a b] c] d] e] f] g] h] k];
+  destruct a, b, c, d, e, f, g, h, k.
+Lemma m3_mul_assoc (A B D : Mat) : m3_mul (m3_mul A B) D = m3_mul A (m3_mul B D).
+Proof. m3_destruct A. m3_destruct B. m3_destruct D. m3_unfold. cx_unfold. split_eq; ring. Qed.
+Lemma m3_adj_mul (A B : Mat) : m3_adj (m3_mul A B) = m3_mul (m3_adj B) (m3_adj A).
+Proof. m3_destruct A. m3_destruct B. m3_unfold. cx_unfold. split_eq; ring. Qed.
+Lemma m3_mul_id_l (A : Mat) : m3_mul (@m3_id ROps) A = A.
+Proof. m3_destruct A. m3_unfold. cx_unfold. split_eq; ring. Qed.
+Lemma m3_apply_mul (A B : Mat) (v : CV3 ROps) : m3_apply (m3_mul A B) v = m3_apply A (m3_apply B v).
+Proof.
+  m3_destruct A. m3_destruct B. destruct v as [[[v1 v2] [v3 v4]] [v5 v6]].
+  m3_unfold. cx_unfold. split_eq; ring.
+Qed.
+Lemma rot3_adj theta : m3_adj (rot3 theta) = rot3 (- theta).
+Proof. m3_unfold. cx_unfold. rewrite cos_neg, sin_neg. split_eq; ring. Qed.
+Lemma rot3_inv theta : m3_mul (rot3 (- theta)) (rot3 theta) = @m3_id ROps.
+Proof.
+  generalize (cs1 theta). intros Ht. m3_unfold. cx_unfold. rewrite cos_neg, sin_neg.
+  split_eq; try ring; ring_simplify; ring_simplify in Ht; lra.
+Qed.
+Lemma rot3_inv' theta : m3_mul (rot3 theta) (rot3 (- theta)) = @m3_id ROps.
+Proof. generalize (rot3_inv (- theta)). rewrite Ropp_involutive. auto. Qed.
+Lemma diag3_unitary (a b : C) : cabs2 (O:=ROps) a = 1 -> cabs2 (O:=ROps) b = 1 -> is_unitary (diag3 a b c1).
+Proof.
+  destruct a as [ar ai], b as [br bi]. intros Ha Hb. m3_unfold. cx_unfold.
+  split_eq; try ring; ring_simplify; ring_simplify in Ha; ring_simplify in Hb; lra.
+Qed.
+
 (** an element R(theta) diag(a, b, 1) R(-theta) with unimodular a, b is unitary *)
 Lemma rotated_unitary (a b : C) theta :
   cabs2 (O:=ROps) a = 1 -> cabs2 (O:=ROps) b = 1 -> is_unitary (rotated_element a b theta).
 Proof.
-  destruct a as [ar ai], b as [br bi]. intros Ha Hb.
-  generalize (cs1 theta). intros Ht.
-  unfold rotated_element. m3_unfold. cx_unfold. rewrite ?cos_neg, ?sin_neg.
-  set (c := cos theta) in *. set (s := sin theta) in *. clearbody c s.
-  split_eq; nsatz.
+  intros Ha Hb. generalize (diag3_unitary a b Ha Hb). unfold is_unitary, rotated_element. intros HD.
+  rewrite !m3_adj_mul, !rot3_adj, Ropp_involutive.
+  rewrite !m3_mul_assoc.
+  rewrite <- (m3_mul_assoc (rot3 (- theta)) (rot3 theta)). rewrite rot3_inv, m3_mul_id_l.
+  rewrite <- (m3_mul_assoc (m3_adj (diag3 a b c1))). rewrite HD, m3_mul_id_l.
+  apply rot3_inv'.
 Qed.
 Theorem retarder_unitary (d theta : R) : is_unitary (retarder_spec d theta).
 Proof.
